@@ -978,6 +978,12 @@ class ConeBeamGeometry(DivergentBeamGeometry, AxisOrientedGeometry):
             src_to_det_init = (src_to_det_init
                                / np.linalg.norm(src_to_det_init))
 
+        # The tangent direction of the source and detector circles is
+        # undefined if source and detector lie on the rotation axis
+        if np.linalg.norm(np.cross(src_to_det_init, axis)) == 0:
+            raise ValueError('`src_to_det_init` {} cannot be parallel to '
+                             '`axis` {}'.format(src_to_det_init, axis))
+
         # Get stuff out of kwargs, otherwise upstream code complains
         # about unknown parameters (rightly so)
         self.__pitch = float(pitch)
